@@ -538,6 +538,18 @@ func (c *c03) clientMethod(fi *FuncInfo, name string, serverTab map[string][]*sr
 		// (a request that is the parameter of a private helper stands for what the method
 		// handed to the helper)
 		nt := c.build(body, s.argExpr(info, 0), s.Call.Pos(), "", fields, 0)
+		// (a request written inside a helper that is judged in this method's context mentions
+		// the helper's parameters: they stand for what the method handed over)
+		rn := c.norm
+		if len(s.Inl) > 0 && s.Res != nil {
+			site := s
+			rn = func(e ast.Node) string {
+				if x, isExpr := e.(ast.Expr); isExpr {
+					return nospace(site.Res.str(x))
+				}
+				return c.norm(e)
+			}
+		}
 		if nt == nil {
 			r.undecided("r1", fmt.Sprintf("clientFile.%s request #%d", name, si+1), s.Call.Pos(), "request expression %s cannot be resolved to a literal", r.L.str(s.Call.Args[0]))
 			continue
@@ -553,14 +565,14 @@ func (c *c03) clientMethod(fi *FuncInfo, name string, serverTab map[string][]*sr
 				r.fail("r1", key+": fid field "+ff, s.Call.Pos(), "the request does not set its fid field %s: it goes out as fid 0, which is never bound (the fid pool starts at 1) — the server answers EBADF and the backend operation is never reached", ff)
 				continue
 			}
-			vs := c.norm(c.stripConv(val))
+			vs := rn(c.stripConv(val))
 			ok := false
 			why := vs
 			switch {
 			case vs == recv+".fid":
 				ok = true
 			case vs == "noFID":
-				ok = lastComp(ff) == "Authenticationfid"
+				ok = lastComp(ff) == r.L.authFidField()
 			case strings.HasSuffix(vs, ".fid"):
 				// X.fid where X := param.(*clientFile)
 				xv := strings.TrimSuffix(vs, ".fid")
@@ -593,7 +605,7 @@ func (c *c03) clientMethod(fi *FuncInfo, name string, serverTab map[string][]*sr
 		// (ii) parameters → fields
 		fieldOfParam := map[string]string{}
 		for f, v := range fields {
-			vs := c.norm(c.stripConv(v))
+			vs := rn(c.stripConv(v))
 			if hv, ok := helperArg[vs]; ok {
 				vs = hv
 			}
@@ -665,7 +677,7 @@ func (c *c03) clientMethod(fi *FuncInfo, name string, serverTab map[string][]*sr
 		// receiver
 		selfField := ""
 		for _, ff := range c.fidFieldsOf(nt) {
-			if v, ok := fields[ff]; ok && c.norm(c.stripConv(v)) == recv+".fid" {
+			if v, ok := fields[ff]; ok && rn(c.stripConv(v)) == recv+".fid" {
 				selfField = lastComp(ff)
 			}
 		}
@@ -814,7 +826,7 @@ func (c *c03) results(fi, body *FuncInfo, name, key string, s *Site, ent *srvEnt
 	}
 	replyVar := ""
 	replyT := ""
-	ra := unparen(s.Call.Args[1])
+	ra := unparen(s.argExpr(info, 1)) // (a helper's parameter stands for what it was called with)
 	if u, ok := ra.(*ast.UnaryExpr); ok && u.Op == token.AND {
 		replyVar = c.norm(u.X)
 		if nt := namedOf(info.TypeOf(u.X)); nt != nil {
